@@ -5,6 +5,11 @@
   engine: `runS opsB (r.mapNodes tn) sB (h x) = (runS opsA r sA x).mapO h` — results, errors
   and per-step traces.  Instantiated in EinoV/Props/C04.lean with A = chunk lists (stream
   mode), B = values (value mode), h = concatenation.
+  The node / branch hypotheses are only required for the nodes of the runner at hand
+  (`Runner.Has`: its start node and the members of `r.nodes`) and for the branches of those
+  nodes; the fan-in hypothesis (`FanInOK`) only for the merges the engine performs (two or
+  more values) and, for the zero value, only in all-predecessor mode.  `run_hom_on` /
+  `run_keeps_on` are the relativised statements, `run_hom` the all-quantified corollary.
   Helper lemmas only; the property statements are in EinoV/Props/C04.lean.
 -/
 import EinoV.Model.Engine
@@ -39,6 +44,31 @@ structure OpsOK (h : A → B) (P : A → Prop) (oA : ValOps A) (oB : ValOps B) :
   merge : ∀ l, (∀ a ∈ l, P a) → oB.merge (l.map h) = (oA.merge l).map h
   mergeKeeps : ∀ l m, (∀ a ∈ l, P a) → oA.merge l = some m → P m
   zero : h oA.zero = oB.zero
+
+/-- what the engine really needs of the two fan-ins: `merge` is only called with two or more
+    values (`collect`), the zero value is only handed out in all-predecessor mode -/
+structure FanInOK (dag : Bool) (h : A → B) (P : A → Prop) (oA : ValOps A) (oB : ValOps B) : Prop where
+  merge : ∀ l, 2 ≤ l.length → (∀ a ∈ l, P a) → oB.merge (l.map h) = (oA.merge l).map h
+  mergeKeeps : ∀ l m, 2 ≤ l.length → (∀ a ∈ l, P a) → oA.merge l = some m → P m
+  zero : dag = true → P oA.zero ∧ h oA.zero = oB.zero
+
+theorem OpsOK.fanIn {h : A → B} {P : A → Prop} {oA : ValOps A} {oB : ValOps B} (hops : OpsOK h P oA oB)
+    (dag : Bool) (hz : dag = true → P oA.zero) : FanInOK dag h P oA oB where
+  merge := fun l _ hl => hops.merge l hl
+  mergeKeeps := fun l m _ hl hm => hops.mergeKeeps l m hl hm
+  zero := fun hd => ⟨hz hd, hops.zero⟩
+
+/-- the nodes a run of `r` can reach: the start node and the members of `r.nodes` -/
+def Runner.Has (r : Runner A) (n : Node A) : Prop := n = r.start ∨ n ∈ r.nodes
+
+theorem Runner.has_of_node? (r : Runner A) (k : Key) (n : Node A) (hn : r.node? k = some n) : r.Has n :=
+  Or.inr (List.mem_of_find?_eq_some hn)
+
+theorem Runner.has_of_call? (r : Runner A) (k : Key) (n : Node A) (hn : r.call? k = some n) : r.Has n := by
+  unfold Runner.call? at hn
+  split at hn
+  · injection hn with hn; exact Or.inl hn.symm
+  · exact r.has_of_node? k n hn
 
 def Chan.mapV (h : A → B) (c : Chan A) : Chan B :=
   { values := c.values.map (fun kv => (kv.1, h kv.2)), ctrl := c.ctrl, data := c.data, skipped := c.skipped }
@@ -135,38 +165,47 @@ theorem foldl_skipStep_mapCM (h : A → B) (dag : Bool) (f : Key) (l : List Key)
 
 /-! ### the translated runner has the same wiring -/
 
-section
-variable (h : A → B) (P : A → Prop) (tb : Branch A → Branch B) (tn : Node A → Node B)
-variable (htb : ∀ b, BranchOK h P b (tb b)) (htn : ∀ n, NodeOK h P tb n (tn n))
-include htb htn
-
-theorem node?_mapNodes (r : Runner A) (k : Key) :
-    (r.mapNodes tn).node? k = (r.node? k).map tn := by
-  unfold Runner.node? Runner.mapNodes
-  simp only
-  induction r.nodes with
+theorem find?_map_key (tn : Node A → Node B) (l : List (Node A)) (hk : ∀ n ∈ l, (tn n).key = n.key) (k : Key) :
+    (l.map tn).find? (·.key == k) = (l.find? (·.key == k)).map tn := by
+  induction l with
   | nil => rfl
   | cons n t ih =>
-    simp only [List.map_cons, List.find?_cons, (htn n).key]
-    by_cases hk : (n.key == k) = true <;> simp [hk, ih]
+    have ih' := ih (fun m hm => hk m (by simp [hm]))
+    simp only [List.map_cons, List.find?_cons, hk n (by simp)]
+    by_cases hkk : (n.key == k) = true <;> simp [hkk, ih']
 
-theorem call?_mapNodes (r : Runner A) (k : Key) :
+theorem flatMap_ends_map (tb : Branch A → Branch B) (l : List (Branch A)) (hl : ∀ b ∈ l, (tb b).ends = b.ends) :
+    (l.map tb).flatMap (·.ends) = l.flatMap (·.ends) := by
+  induction l with
+  | nil => rfl
+  | cons b t ih =>
+    simp [List.flatMap_cons, hl b (by simp), ih (fun c hc => hl c (by simp [hc]))]
+
+section
+variable (h : A → B) (P : A → Prop) (tb : Branch A → Branch B) (tn : Node A → Node B) (r : Runner A)
+variable (htb : ∀ n, r.Has n → ∀ b ∈ n.branches, BranchOK h P b (tb b)) (htn : ∀ n, r.Has n → NodeOK h P tb n (tn n))
+include htb htn
+
+omit htb in
+theorem node?_mapNodes (k : Key) :
+    (r.mapNodes tn).node? k = (r.node? k).map tn :=
+  find?_map_key tn r.nodes (fun n hn => (htn n (Or.inr hn)).key) k
+
+omit htb in
+theorem call?_mapNodes (k : Key) :
     (r.mapNodes tn).call? k = (r.call? k).map tn := by
   unfold Runner.call?
   by_cases hk : (k == START) = true
   · simp [hk, Runner.mapNodes]
   · simp only [hk, Bool.false_eq_true, ↓reduceIte]
-    exact node?_mapNodes h P tb tn htb htn r k
+    exact node?_mapNodes h P tb tn r htn k
 
-theorem successors_tn (n : Node A) : (tn n).successors = n.successors := by
+theorem successors_tn (n : Node A) (hn : r.Has n) : (tn n).successors = n.successors := by
   unfold Node.successors
-  rw [(htn n).writeTo, (htn n).controls, (htn n).branches]
-  congr 1
-  induction n.branches with
-  | nil => rfl
-  | cons b t ih => simp [List.flatMap_cons, (htb b).ends, ih]
+  rw [(htn n hn).writeTo, (htn n hn).controls, (htn n hn).branches,
+    flatMap_ends_map tb n.branches (fun b hb => (htb n hn b hb).ends)]
 
-theorem propagateSkips_mapCM (r : Runner A) (fuel : Nat) (cm : Chans A) (ks : List Key) :
+theorem propagateSkips_mapCM (fuel : Nat) (cm : Chans A) (ks : List Key) :
     propagateSkips (r.mapNodes tn) fuel (mapCM h cm) ks = (propagateSkips r fuel cm ks).map (mapCM h) := by
   induction fuel generalizing cm ks with
   | zero => rfl
@@ -174,22 +213,22 @@ theorem propagateSkips_mapCM (r : Runner A) (fuel : Nat) (cm : Chans A) (ks : Li
     cases ks with
     | nil => rfl
     | cons k rest =>
-      simp only [propagateSkips, node?_mapNodes h P tb tn htb htn]
+      simp only [propagateSkips, node?_mapNodes h P tb tn r htn]
       cases hn : r.node? k with
       | none => rfl
       | some nd =>
-        simp only [Option.map_some, successors_tn h P tb tn htb htn]
+        simp only [Option.map_some, successors_tn h P tb tn r htb htn nd (r.has_of_node? k nd hn)]
         have : (r.mapNodes tn).dag = r.dag := rfl
         rw [this, foldl_skipStep_mapCM h r.dag k nd.successors (cm, [])]
         exact ih _ _
 
-theorem reportBranch_mapCM (r : Runner A) (cm : Chans A) (f : Key) (sk : List Key) :
+theorem reportBranch_mapCM (cm : Chans A) (f : Key) (sk : List Key) :
     reportBranch (r.mapNodes tn) (mapCM h cm) f sk = (reportBranch r cm f sk).map (mapCM h) := by
   unfold reportBranch
   have hd : (r.mapNodes tn).dag = r.dag := rfl
   have hl : (r.mapNodes tn).nodes.length = r.nodes.length := by simp [Runner.mapNodes]
   rw [hd, hl, foldl_skipStep_mapCM h r.dag f sk (cm, [])]
-  exact propagateSkips_mapCM h P tb tn htb htn r _ _ _
+  exact propagateSkips_mapCM h P tb tn r htb htn _ _ _
 
 end
 
@@ -226,71 +265,78 @@ theorem foldl_addWrite_mapW (h : A → B) (tg : List Key) (f : Key) (v : A) (ws 
 def Resolved.mapR (h : A → B) (x : Resolved A) : Resolved B :=
   { cm := mapCM h x.cm, writes := mapW h x.writes, deps := x.deps }
 
-section
-variable (h : A → B) (P : A → Prop) (tb : Branch A → Branch B) (tn : Node A → Node B)
-variable (htb : ∀ b, BranchOK h P b (tb b)) (htn : ∀ n, NodeOK h P tb n (tn n))
-include htb htn
-
-theorem selectOf_tn (n : Node A) (a : A) (ha : P a) : selectOf (tn n) (h a) = selectOf n a := by
-  unfold selectOf
-  rw [(htn n).branches]
-  congr 1
-  induction n.branches with
+theorem mapM_cond_map (h : A → B) (P : A → Prop) (tb : Branch A → Branch B) (l : List (Branch A))
+    (hl : ∀ b ∈ l, BranchOK h P b (tb b)) (a : A) (ha : P a) :
+    (l.map tb).mapM (fun b => do
+        let ws ← b.cond (h a)
+        if ws.all b.ends.contains then pure ws else throw ({ cls := .badBranchEnd } : Err))
+      = l.mapM (fun b => do
+        let ws ← b.cond a
+        if ws.all b.ends.contains then pure ws else throw ({ cls := .badBranchEnd } : Err)) := by
+  induction l with
   | nil => rfl
   | cons b t ih =>
-    simp only [List.map_cons, List.mapM_cons, (htb b).cond a ha, (htb b).ends, ih]
+    simp only [List.map_cons, List.mapM_cons, (hl b (by simp)).cond a ha, (hl b (by simp)).ends,
+      ih (fun c hc => hl c (by simp [hc]))]
 
-theorem skippedOf_tn (n : Node A) (sel : List Key) : skippedOf (tn n) sel = skippedOf n sel := by
+section
+variable (h : A → B) (P : A → Prop) (tb : Branch A → Branch B) (tn : Node A → Node B) (r : Runner A)
+variable (htb : ∀ n, r.Has n → ∀ b ∈ n.branches, BranchOK h P b (tb b)) (htn : ∀ n, r.Has n → NodeOK h P tb n (tn n))
+include htb htn
+
+theorem selectOf_tn (n : Node A) (hn : r.Has n) (a : A) (ha : P a) : selectOf (tn n) (h a) = selectOf n a := by
+  unfold selectOf
+  rw [(htn n hn).branches, mapM_cond_map h P tb n.branches (htb n hn) a ha]
+
+theorem skippedOf_tn (n : Node A) (hn : r.Has n) (sel : List Key) : skippedOf (tn n) sel = skippedOf n sel := by
   unfold skippedOf
-  rw [(htn n).branches, (htn n).controls]
-  congr 2
-  induction n.branches with
-  | nil => rfl
-  | cons b t ih => simp [List.flatMap_cons, (htb b).ends, ih]
+  rw [(htn n hn).branches, (htn n hn).controls,
+    flatMap_ends_map tb n.branches (fun b hb => (htb n hn b hb).ends)]
 
-theorem calcBranch_hom (r : Runner A) (cm : Chans A) (n : Node A) (a : A) (ha : P a) :
+theorem calcBranch_hom (cm : Chans A) (n : Node A) (hn : r.Has n) (a : A) (ha : P a) :
     calcBranch (r.mapNodes tn) (mapCM h cm) (tn n) (h a)
       = (calcBranch r cm n a).map (fun x => (mapCM h x.1, x.2)) := by
   unfold calcBranch
-  rw [selectOf_tn h P tb tn htb htn n a ha]
+  rw [selectOf_tn h P tb tn r htb htn n hn a ha]
   cases hs : selectOf n a with
   | error e => rfl
   | ok sel =>
-    simp only [bind, Except.bind, skippedOf_tn h P tb tn htb htn, (htn n).key,
-      reportBranch_mapCM h P tb tn htb htn]
+    simp only [bind, Except.bind, skippedOf_tn h P tb tn r htb htn n hn, (htn n hn).key,
+      reportBranch_mapCM h P tb tn r htb htn]
     cases reportBranch r cm n.key (skippedOf n sel) <;> rfl
 
-theorem resolveStep_hom (r : Runner A) (acc : Resolved A) (t : Done A) (ht : P t.2) :
+theorem resolveStep_hom (acc : Resolved A) (t : Done A) (ht : P t.2) :
     resolveStep (r.mapNodes tn) (acc.mapR h) (t.1, h t.2) = (resolveStep r acc t).map (Resolved.mapR h) := by
   unfold resolveStep
-  simp only [call?_mapNodes h P tb tn htb htn]
+  simp only [call?_mapNodes h P tb tn r htn]
   cases hc : r.call? t.1 with
   | none => rfl
   | some n =>
-    simp only [Option.map_some, Resolved.mapR, calcBranch_hom h P tb tn htb htn r acc.cm n t.2 ht]
+    have hn : r.Has n := r.has_of_call? t.1 n hc
+    simp only [Option.map_some, Resolved.mapR, calcBranch_hom h P tb tn r htb htn acc.cm n hn t.2 ht]
     cases hb : calcBranch r acc.cm n t.2 with
     | error e => rfl
     | ok x =>
       obtain ⟨cm', sel⟩ := x
-      simp only [Except.map, bind, Except.bind, pure, Except.pure, (htn n).writeTo, (htn n).controls,
+      simp only [Except.map, bind, Except.bind, pure, Except.pure, (htn n hn).writeTo, (htn n hn).controls,
         foldl_addWrite_mapW, Resolved.mapR]
 
-theorem foldlM_resolveStep_hom (r : Runner A) (done : List (Done A)) (hd : ListP P done) (acc : Resolved A) :
+theorem foldlM_resolveStep_hom (done : List (Done A)) (hd : ListP P done) (acc : Resolved A) :
     (done.map (fun d => (d.1, h d.2))).foldlM (resolveStep (r.mapNodes tn)) (acc.mapR h)
       = (done.foldlM (resolveStep r) acc).map (Resolved.mapR h) := by
   induction done generalizing acc with
   | nil => rfl
   | cons d rest ih =>
     simp only [List.map_cons, List.foldlM_cons]
-    rw [resolveStep_hom h P tb tn htb htn r acc d (hd d (by simp))]
+    rw [resolveStep_hom h P tb tn r htb htn acc d (hd d (by simp))]
     cases resolveStep r acc d with
     | error e => rfl
     | ok acc' => simp only [Except.map, bind, Except.bind]; exact ih (fun x hx => hd x (by simp [hx])) acc'
 
-theorem resolve_hom (r : Runner A) (cm : Chans A) (done : List (Done A)) (hd : ListP P done) :
+theorem resolve_hom (cm : Chans A) (done : List (Done A)) (hd : ListP P done) :
     resolve (r.mapNodes tn) (mapCM h cm) (done.map (fun d => (d.1, h d.2)))
       = (resolve r cm done).map (Resolved.mapR h) :=
-  foldlM_resolveStep_hom h P tb tn htb htn r done hd { cm := cm, writes := [], deps := [] }
+  foldlM_resolveStep_hom h P tb tn r htb htn done hd { cm := cm, writes := [], deps := [] }
 
 end
 
@@ -436,7 +482,7 @@ def GetResult.mapG (h : A → B) : GetResult A → GetResult B
   | .mergeErr => .mergeErr
 
 section
-variable (h : A → B) (P : A → Prop) (oA : ValOps A) (oB : ValOps B) (hops : OpsOK h P oA oB)
+variable (dag : Bool) (h : A → B) (P : A → Prop) (oA : ValOps A) (oB : ValOps B) (hops : FanInOK dag h P oA oB)
 include hops
 
 theorem collect_hom (l : List A) (hl : ∀ a ∈ l, P a) : collect oB (l.map h) = (collect oA l).mapG h := by
@@ -445,7 +491,7 @@ theorem collect_hom (l : List A) (hl : ∀ a ∈ l, P a) : collect oB (l.map h) 
   | [v], _ => rfl
   | a :: b :: t, hl =>
     simp only [List.map_cons, collect]
-    have := hops.merge (a :: b :: t) hl
+    have := hops.merge (a :: b :: t) (by simp) hl
     simp only [List.map_cons] at this
     rw [this]
     cases oA.merge (a :: b :: t) <;> rfl
@@ -458,9 +504,9 @@ theorem collect_keeps (l : List A) (hl : ∀ a ∈ l, P a) (v : A) (hv : collect
     simp only [collect] at hv
     cases hm : oA.merge (a :: b :: t) with
     | none => simp [hm] at hv
-    | some m => simp [hm] at hv; subst hv; exact hops.mergeKeeps _ _ hl hm
+    | some m => simp [hm] at hv; subst hv; exact hops.mergeKeeps _ _ (by simp) hl hm
 
-theorem get_hom (dag : Bool) (c : Chan A) (hc : ChanP P c) :
+theorem get_hom (c : Chan A) (hc : ChanP P c) :
     (c.mapV h).get oB dag = ((c.get oA dag).1.mapV h, ((c.get oA dag).2).mapG h) := by
   have hvals : ∀ a ∈ c.values.map (·.2), P a := by
     intro a ha; simp only [List.mem_map] at ha; obtain ⟨kv, hkv, rfl⟩ := ha; exact hc kv hkv
@@ -476,18 +522,18 @@ theorem get_hom (dag : Bool) (c : Chan A) (hc : ChanP P c) :
     by_cases htr : c.triggered = true
     · simp only [htr, ↓reduceIte, hemp, hmm]
       by_cases he : c.values.isEmpty = true
-      · simp [he, GetResult.mapG, hops.zero, Chan.reset, Chan.mapV]
-      · simp only [he, Bool.false_eq_true, ↓reduceIte, collect_hom h P oA oB hops _ hvals]
+      · simp [he, GetResult.mapG, (hops.zero rfl).2, Chan.reset, Chan.mapV]
+      · simp only [he, Bool.false_eq_true, ↓reduceIte, collect_hom true h P oA oB hops _ hvals]
         simp [Chan.reset, Chan.mapV]
     · simp [htr, GetResult.mapG]
   | false =>
     simp only [Bool.false_eq_true, ↓reduceIte, hemp, hmm]
     by_cases he : c.values.isEmpty = true
     · simp [he, GetResult.mapG]
-    · simp only [he, Bool.false_eq_true, ↓reduceIte, collect_hom h P oA oB hops _ hvals]
+    · simp only [he, Bool.false_eq_true, ↓reduceIte, collect_hom false h P oA oB hops _ hvals]
       simp [Chan.mapV]
 
-theorem get_keeps (dag : Bool) (hz : dag = true → P oA.zero) (c : Chan A) (hc : ChanP P c) (v : A)
+theorem get_keeps (c : Chan A) (hc : ChanP P c) (v : A)
     (hv : (c.get oA dag).2 = .ready v) : P v := by
   have hvals : ∀ a ∈ c.values.map (·.2), P a := by
     intro a ha; simp only [List.mem_map] at ha; obtain ⟨kv, hkv, rfl⟩ := ha; exact hc kv hkv
@@ -498,16 +544,16 @@ theorem get_keeps (dag : Bool) (hz : dag = true → P oA.zero) (c : Chan A) (hc 
     by_cases htr : c.triggered = true
     · simp only [htr, ↓reduceIte] at hv
       by_cases he : c.values.isEmpty = true
-      · simp [he] at hv; subst hv; exact hz rfl
+      · simp [he] at hv; subst hv; exact (hops.zero rfl).1
       · simp only [he, Bool.false_eq_true, ↓reduceIte] at hv
-        exact collect_keeps h P oA oB hops _ hvals v hv
+        exact collect_keeps true h P oA oB hops _ hvals v hv
     · simp [htr] at hv
   | false =>
     simp only [Bool.false_eq_true, ↓reduceIte] at hv
     by_cases he : c.values.isEmpty = true
     · simp [he] at hv
     · simp only [he, Bool.false_eq_true, ↓reduceIte] at hv
-      exact collect_keeps h P oA oB hops _ hvals v hv
+      exact collect_keeps false h P oA oB hops _ hvals v hv
 
 end
 
@@ -529,10 +575,10 @@ theorem get_chanP (P : A → Prop) (oA : ValOps A) (dag : Bool) (c : Chan A) (hc
 /-! ### getReady -/
 
 section
-variable (h : A → B) (P : A → Prop) (oA : ValOps A) (oB : ValOps B) (hops : OpsOK h P oA oB)
+variable (dag : Bool) (h : A → B) (P : A → Prop) (oA : ValOps A) (oB : ValOps B) (hops : FanInOK dag h P oA oB)
 include hops
 
-theorem getReady_hom (dag : Bool) (cm : Chans A) (hcm : ValsP P cm) :
+theorem getReady_hom (cm : Chans A) (hcm : ValsP P cm) :
     getReady oB dag (mapCM h cm) =
       (mapCM h (getReady oA dag cm).1, mapL h (getReady oA dag cm).2.1, (getReady oA dag cm).2.2) := by
   induction cm with
@@ -544,10 +590,10 @@ theorem getReady_hom (dag : Bool) (cm : Chans A) (hcm : ValsP P cm) :
     simp only [mapCM, List.map_cons, getReady]
     have := ih ht
     simp only [mapCM] at this
-    rw [this, get_hom h P oA oB hops dag c hc]
+    rw [this, get_hom dag h P oA oB hops c hc]
     cases hg : (c.get oA dag).2 <;> simp [GetResult.mapG, mapL, mapCM]
 
-theorem getReady_keeps (dag : Bool) (hz : dag = true → P oA.zero) (cm : Chans A) (hcm : ValsP P cm) :
+theorem getReady_keeps (cm : Chans A) (hcm : ValsP P cm) :
     ValsP P (getReady oA dag cm).1 ∧ ListP P (getReady oA dag cm).2.1 := by
   induction cm with
   | nil => exact ⟨by intro p hp; simp [getReady] at hp, by intro p hp; simp [getReady] at hp⟩
@@ -579,7 +625,7 @@ theorem getReady_keeps (dag : Bool) (hz : dag = true → P oA.zero) (cm : Chans 
         · exact i1 q hq
       · intro q hq; simp only [List.mem_cons] at hq
         rcases hq with rfl | hq
-        · exact get_keeps h P oA oB hops dag hz c hc v hg
+        · exact get_keeps dag h P oA oB hops c hc v hg
         · exact i2 q hq
 
 end
@@ -845,18 +891,18 @@ theorem alookup_mapL (h : A → B) (k : Key) (l : List (Key × A)) :
     alookup k (mapL h l) = (alookup k l).map h := alookup_map h k l
 
 section
-variable (h : A → B) (P : A → Prop) (tb : Branch A → Branch B) (tn : Node A → Node B)
-variable (htb : ∀ b, BranchOK h P b (tb b)) (htn : ∀ n, NodeOK h P tb n (tn n))
-variable (oA : ValOps A) (oB : ValOps B) (hops : OpsOK h P oA oB)
+variable (h : A → B) (P : A → Prop) (tb : Branch A → Branch B) (tn : Node A → Node B) (r : Runner A)
+variable (htb : ∀ n, r.Has n → ∀ b ∈ n.branches, BranchOK h P b (tb b)) (htn : ∀ n, r.Has n → NodeOK h P tb n (tn n))
+variable (oA : ValOps A) (oB : ValOps B) (hops : FanInOK r.dag h P oA oB)
 include htb htn hops
 
-theorem calcNext_hom (r : Runner A) (hz : r.dag = true → P oA.zero) (cm : Chans A) (hcm : ValsP P cm)
+theorem calcNext_hom (cm : Chans A) (hcm : ValsP P cm)
     (done : List (Done A)) (hd : ListP P done) :
     calcNext oB (r.mapNodes tn) (mapCM h cm) (mapL h done)
       = (calcNext oA r cm done).map (fun x => (mapCM h x.1, x.2.mapN h)) ∧
     (∀ cm' nx, calcNext oA r cm done = .ok (cm', nx) → ValsP P cm' ∧ NextP P nx) := by
   unfold calcNext
-  have hres := resolve_hom h P tb tn htb htn r cm done hd
+  have hres := resolve_hom h P tb tn r htb htn cm done hd
   simp only [mapL] at hres ⊢
   rw [hres]
   cases hr : resolve r cm done with
@@ -867,8 +913,8 @@ theorem calcNext_hom (r : Runner A) (hz : r.dag = true → P oA.zero) (cm : Chan
     have k4 := valsP_updateDeps P r _ res.deps k3
     have hd' : (r.mapNodes tn).dag = r.dag := rfl
     simp only [Except.map, bind, Except.bind, Resolved.mapR, updateValues_hom, updateDeps_hom, hd',
-      getReady_hom h P oA oB hops r.dag _ k4]
-    obtain ⟨g1, g2⟩ := getReady_keeps h P oA oB hops r.dag hz _ k4
+      getReady_hom r.dag h P oA oB hops _ k4]
+    obtain ⟨g1, g2⟩ := getReady_keeps r.dag h P oA oB hops _ k4
     generalize getReady oA r.dag (updateDeps r (updateValues r res.cm res.writes) res.deps) = gr at g1 g2 ⊢
     obtain ⟨cm3, ready, bad⟩ := gr
     simp only at g1 g2 ⊢
@@ -952,25 +998,25 @@ theorem mapM_collectOne_mem (l : List (Key × Except Err A)) (done : List (Done 
         · exact List.mem_cons_of_mem _ (ih d' ht hd1)
 
 section
-variable (h : A → B) (P : A → Prop) (tb : Branch A → Branch B) (tn : Node A → Node B)
-variable (htb : ∀ b, BranchOK h P b (tb b)) (htn : ∀ n, NodeOK h P tb n (tn n))
-include htb htn
+variable (h : A → B) (P : A → Prop) (tb : Branch A → Branch B) (tn : Node A → Node B) (r : Runner A)
+variable (htn : ∀ n, r.Has n → NodeOK h P tb n (tn n))
+include htn
 
-theorem execOne_hom (r : Runner A) (t : Key × A) (ht : P t.2) :
+theorem execOne_hom (t : Key × A) (ht : P t.2) :
     execOne (r.mapNodes tn) (t.1, h t.2) = mapRes h (execOne r t) := by
   unfold execOne mapRes
-  simp only [node?_mapNodes h P tb tn htb htn]
+  simp only [node?_mapNodes h P tb tn r htn]
   cases hn : r.node? t.1 with
   | none => rfl
-  | some n => simp [(htn n).act t.2 ht]
+  | some n => simp [(htn n (r.has_of_node? t.1 n hn)).act t.2 ht]
 
-theorem execOne_keeps (r : Runner A) (t : Key × A) (ht : P t.2) (v : A) (hv : (execOne r t).2 = .ok v) : P v := by
+theorem execOne_keeps (t : Key × A) (ht : P t.2) (v : A) (hv : (execOne r t).2 = .ok v) : P v := by
   unfold execOne at hv
   cases hn : r.node? t.1 with
   | none => simp [hn] at hv; subst hv; exact ht
-  | some n => simp only [hn] at hv; exact (htn n).keeps t.2 v ht hv
+  | some n => simp only [hn] at hv; exact (htn n (r.has_of_node? t.1 n hn)).keeps t.2 v ht hv
 
-theorem runTasks_hom (r : Runner A) (sA : Sched A) (sB : Sched B) (hs : SchedHom h sA sB) (hsub : SchedSub sA)
+theorem runTasks_hom (sA : Sched A) (sB : Sched B) (hs : SchedHom h sA sB) (hsub : SchedSub sA)
     (step : Nat) (ts : List (Key × A)) (hts : ListP P ts) :
     runTasks (r.mapNodes tn) sB step (mapL h ts) = (runTasks r sA step ts).map (mapL h) ∧
     (∀ done, runTasks r sA step ts = .ok done → ListP P done) := by
@@ -980,7 +1026,7 @@ theorem runTasks_hom (r : Runner A) (sA : Sched A) (sB : Sched B) (hs : SchedHom
     rw [List.map_map, List.map_map]
     apply List.map_congr_left
     intro t ht
-    exact execOne_hom h P tb tn htb htn r t (hts t ht)
+    exact execOne_hom h P tb tn r htn t (hts t ht)
   rw [hmap, hs, mapM_collectOne_hom h]
   refine ⟨rfl, ?_⟩
   intro done hdone d hd
@@ -989,60 +1035,74 @@ theorem runTasks_hom (r : Runner A) (sA : Sched A) (sB : Sched B) (hs : SchedHom
   simp only [List.mem_map] at hin2
   obtain ⟨t, ht, he⟩ := hin2
   have h2 : (execOne r t).2 = .ok d.2 := by rw [he]
-  exact execOne_keeps h P tb tn htb htn r t (hts t ht) d.2 h2
+  exact execOne_keeps h P tb tn r htn t (hts t ht) d.2 h2
 
 end
 
 section
-variable (h : A → B) (P : A → Prop) (tb : Branch A → Branch B) (tn : Node A → Node B)
-variable (htb : ∀ b, BranchOK h P b (tb b)) (htn : ∀ n, NodeOK h P tb n (tn n))
-variable (oA : ValOps A) (oB : ValOps B) (hops : OpsOK h P oA oB)
+variable (h : A → B) (P : A → Prop) (tb : Branch A → Branch B) (tn : Node A → Node B) (r : Runner A)
+variable (htb : ∀ n, r.Has n → ∀ b ∈ n.branches, BranchOK h P b (tb b)) (htn : ∀ n, r.Has n → NodeOK h P tb n (tn n))
+variable (oA : ValOps A) (oB : ValOps B) (hops : FanInOK r.dag h P oA oB)
 include htb htn hops
 
-theorem loop_hom (r : Runner A) (hz : r.dag = true → P oA.zero) (sA : Sched A) (sB : Sched B)
+/-- the loop commutes with `h`, and a successful result satisfies the invariant -/
+theorem loop_hom (sA : Sched A) (sB : Sched B)
     (hs : SchedHom h sA sB) (hsub : SchedSub sA) :
     ∀ (fuel : Nat) (cm : Chans A) (tasks : List (Key × A)) (tr : Trace A),
       ValsP P cm → ListP P tasks →
       loop oB (r.mapNodes tn) sB fuel (mapCM h cm) (mapL h tasks) (tr.map (mapL h))
-        = (loop oA r sA fuel cm tasks tr).mapO h := by
+        = (loop oA r sA fuel cm tasks tr).mapO h ∧
+      (∀ v, (loop oA r sA fuel cm tasks tr).result = .ok v → P v) := by
   intro fuel
   induction fuel with
   | zero =>
     intro cm tasks tr _ _
-    simp only [loop, Outcome.mapO, Except.map, List.map_reverse]
-    rfl
+    refine ⟨?_, ?_⟩
+    · simp only [loop, Outcome.mapO, Except.map, List.map_reverse]
+      rfl
+    · intro v hv; simp [loop] at hv
   | succ n ih =>
     intro cm tasks tr hcm hts
     unfold loop
     simp only [List.length_map]
-    obtain ⟨r1, r2⟩ := runTasks_hom h P tb tn htb htn r sA sB hs hsub tr.length tasks hts
+    obtain ⟨r1, r2⟩ := runTasks_hom h P tb tn r htn sA sB hs hsub tr.length tasks hts
     rw [r1]
     cases hr : runTasks r sA tr.length tasks with
-    | error e => simp [Except.map, Outcome.mapO, List.map_reverse]
+    | error e => exact ⟨by simp [Except.map, Outcome.mapO, List.map_reverse], by intro v hv; simp at hv⟩
     | ok done =>
       simp only [Except.map]
       have hemp : (mapL h done).isEmpty = done.isEmpty := by cases done <;> rfl
       rw [hemp]
       by_cases he : done.isEmpty = true
-      · simp [he, Outcome.mapO, Except.map, List.map_reverse]
+      · exact ⟨by simp [he, Outcome.mapO, Except.map, List.map_reverse], by intro v hv; simp [he] at hv⟩
       · simp only [he, Bool.false_eq_true, ↓reduceIte]
-        obtain ⟨c1, c2⟩ := calcNext_hom h P tb tn htb htn oA oB hops r hz cm hcm done (r2 done hr)
+        obtain ⟨c1, c2⟩ := calcNext_hom h P tb tn r htb htn oA oB hops cm hcm done (r2 done hr)
         rw [c1]
         cases hc : calcNext oA r cm done with
-        | error e => simp [Except.map, Outcome.mapO, List.map_reverse]
+        | error e => exact ⟨by simp [Except.map, Outcome.mapO, List.map_reverse], by intro v hv; simp at hv⟩
         | ok res =>
           obtain ⟨cm', nx⟩ := res
           obtain ⟨k1, k2⟩ := c2 cm' nx hc
           cases nx with
-          | result v => simp [Except.map, Outcome.mapO, Next.mapN, List.map_reverse]
+          | result v =>
+            refine ⟨by simp [Except.map, Outcome.mapO, Next.mapN, List.map_reverse], ?_⟩
+            intro w hw
+            simp only [Except.ok.injEq] at hw
+            subst hw
+            exact k2
           | tasks ts =>
             simp only [Except.map, Next.mapN]
             have := ih cm' ts (tasks :: tr) k1 k2
-            simpa using this
+            exact ⟨by simpa using this.1, this.2⟩
 
-theorem run_hom (r : Runner A) (hz : r.dag = true → P oA.zero) (sA : Sched A) (sB : Sched B)
+/-- **relativised engine homomorphism**: the node and branch hypotheses are required only
+    for the nodes of `r` (`r.start`, the members of `r.nodes`) and their branches; the fan-in
+    hypothesis only for merges of two or more values (and the zero value in all-predecessor
+    mode).  The second part: a successful result satisfies the invariant. -/
+theorem run_hom_keeps_on (sA : Sched A) (sB : Sched B)
     (hs : SchedHom h sA sB) (hsub : SchedSub sA) (x : A) (hx : P x) :
-    runS oB (r.mapNodes tn) sB (h x) = (runS oA r sA x).mapO h := by
+    runS oB (r.mapNodes tn) sB (h x) = (runS oA r sA x).mapO h ∧
+    (∀ v, (runS oA r sA x).result = .ok v → P v) := by
   unfold runS
   have hci : ∀ (dag : Bool) (cp dp : List Key), (Chan.init dag cp dp : Chan B) = (Chan.init dag cp dp : Chan A).mapV h := by
     intro dag cp dp; cases dag <;> rfl
@@ -1050,30 +1110,54 @@ theorem run_hom (r : Runner A) (hz : r.dag = true → P oA.zero) (sA : Sched A) 
     simp only [initChans, Runner.mapNodes, mapCM, List.map_append, List.map_map, List.map_cons, List.map_nil, hci]
     congr 1
     apply List.map_congr_left
-    intro n _
-    simp [Function.comp, (htn n).key]
+    intro n hn
+    simp [Function.comp, (htn n (Or.inr hn)).key]
   have hP0 : ValsP P (initChans r) := by
     intro p hp kv hkv
     simp only [initChans, List.mem_append, List.mem_map, List.mem_singleton] at hp
     rcases hp with ⟨n, _, rfl⟩ | rfl <;> (simp only [Chan.init] at hkv; split at hkv <;> simp at hkv)
-  obtain ⟨c1, c2⟩ := calcNext_hom h P tb tn htb htn oA oB hops r hz (initChans r) hP0 [(START, x)]
+  obtain ⟨c1, c2⟩ := calcNext_hom h P tb tn r htb htn oA oB hops (initChans r) hP0 [(START, x)]
     (by intro d hd; simp at hd; subst hd; exact hx)
   simp only [mapL, List.map_cons, List.map_nil] at c1
   rw [hinit, c1]
   cases hc : calcNext oA r (initChans r) [(START, x)] with
-  | error e => simp [Except.map, Outcome.mapO]
+  | error e => exact ⟨by simp [Except.map, Outcome.mapO], by intro v hv; simp at hv⟩
   | ok res =>
     obtain ⟨cm', nx⟩ := res
     obtain ⟨k1, k2⟩ := c2 cm' nx hc
     cases nx with
-    | result v => simp [Except.map, Outcome.mapO, Next.mapN]
+    | result v =>
+      refine ⟨by simp [Except.map, Outcome.mapO, Next.mapN], ?_⟩
+      intro w hw
+      simp only [Except.ok.injEq] at hw
+      subst hw
+      exact k2
     | tasks ts =>
       simp only [Except.map, Next.mapN]
       have hf : (r.mapNodes tn).fuel = r.fuel := by simp [Runner.fuel, Runner.mapNodes]
       rw [hf]
-      have := loop_hom h P tb tn htb htn oA oB hops r hz sA sB hs hsub r.fuel cm' ts [] k1 k2
-      simpa using this
+      have := loop_hom h P tb tn r htb htn oA oB hops sA sB hs hsub r.fuel cm' ts [] k1 k2
+      exact ⟨by simpa using this.1, this.2⟩
+
+theorem run_hom_on (sA : Sched A) (sB : Sched B)
+    (hs : SchedHom h sA sB) (hsub : SchedSub sA) (x : A) (hx : P x) :
+    runS oB (r.mapNodes tn) sB (h x) = (runS oA r sA x).mapO h :=
+  (run_hom_keeps_on h P tb tn r htb htn oA oB hops sA sB hs hsub x hx).1
+
+theorem run_keeps_on (sA : Sched A) (sB : Sched B)
+    (hs : SchedHom h sA sB) (hsub : SchedSub sA) (x : A) (hx : P x) (v : A)
+    (hv : (runS oA r sA x).result = .ok v) : P v :=
+  (run_hom_keeps_on h P tb tn r htb htn oA oB hops sA sB hs hsub x hx).2 v hv
 
 end
+
+/-- the all-quantified form: every node and every branch of the type corresponds -/
+theorem run_hom (h : A → B) (P : A → Prop) (tb : Branch A → Branch B) (tn : Node A → Node B)
+    (htb : ∀ b, BranchOK h P b (tb b)) (htn : ∀ n, NodeOK h P tb n (tn n))
+    (oA : ValOps A) (oB : ValOps B) (hops : OpsOK h P oA oB)
+    (r : Runner A) (hz : r.dag = true → P oA.zero) (sA : Sched A) (sB : Sched B)
+    (hs : SchedHom h sA sB) (hsub : SchedSub sA) (x : A) (hx : P x) :
+    runS oB (r.mapNodes tn) sB (h x) = (runS oA r sA x).mapO h :=
+  run_hom_on h P tb tn r (fun _ _ b _ => htb b) (fun n _ => htn n) oA oB (hops.fanIn r.dag hz) sA sB hs hsub x hx
 
 end EinoV.Engine
